@@ -9,7 +9,9 @@ import tie
 RULE = ("a known offending token is planted after generated preceding text (programs from progs that run to completion, "
         "hand-written preludes with tabs, CR LF, blank lines, comments with multi-byte text, multi-line string literals and "
         "multi-line list / object literals) and optional following text; kinds: lexical `&`, unexpected token, undefined name, "
-        "operator type / overflow / zero-divisor error (binary and op-assign), call of a non-function and arity error "
+        "operator type / overflow / zero-divisor error (binary; and through op-assignment `+= -= *= /= %=` to a variable, a list "
+        "element, a property `.k` and an indexed property `[\"k\"]`, also nested targets and inside called functions: expected "
+        "position = the op-assign token), call of a non-function and arity error "
         "(first token of the call expression), undefined name in an interpolation slot of an escape-free one-line literal, "
         "and call chains of depth 2..4 raising inside nested (also anonymous / method) functions; every program is re-rendered "
         "under random admissible layouts (C09's engine: terminator choice, blank lines, comments, CR LF, continuation breaks, "
@@ -64,7 +66,31 @@ TEMPLATES = [
     ("slot", "qq := [$\"€😀 ${«0»zz_q + \"x\"}\"]\n", True),
 ]
 
-RAISE = ["t := n «0»+ \"a\"", "t := [«0»nope_qq]", "t := «0»n(1)", "t := 1 «0»/ (n - n)", "n «0»-= \"é\""]
+# operator error through op-assignment: target form x failure class; expected position = the op-assign token
+OPASSIGN_TARGETS = [
+    ("var", "qv := {V}\n", "qv"),
+    ("element", "qxs := [0, {V}]\n", "qxs[1]"),
+    ("element", "qxs := [[{V}]]\n", "qxs[0][0]"),
+    ("prop", "qo := {\"k\": {V}, \"é\": 0}\n", "qo.k"),
+    ("prop", "qo := {\"n\": {\"k\": {V}}}\n", "qo.n.k"),
+    ("index-prop", "qo := {\"k\": {V}}\n", "qo[\"k\"]"),
+    ("index-prop", "qo := {\"é€\": [{V}]}\n", "qo[\"é€\"][0]"),
+]
+OPASSIGN_FAILS = [
+    ("type", "1", "+=", "\"a\""), ("type", "1", "-=", "[]"), ("type", "\"é\"", "*=", "2"), ("type", "true", "/=", "1"),
+    ("type", "[1]", "%=", "null"), ("type", "1", "+=", "\"é😀\" + \"b\""),
+    ("overflow", "9223372036854775807", "+=", "1"), ("overflow", "9223372036854775807", "*=", "2"),
+    ("overflow", "-9223372036854775807", "-=", "2"), ("overflow", "3037000500", "*=", "3037000500"),
+    ("zero", "1", "/=", "0"), ("zero", "7", "%=", "0"), ("zero", "1", "/=", "2 - 2"),
+]
+for _form, _setup, _target in OPASSIGN_TARGETS:
+    for _cls, _v, _op, _rhs in OPASSIGN_FAILS:
+        for _sp in (" ", "   \t"):
+            TEMPLATES.append((f"opassign-{_form}-{_cls}", _setup.replace("{V}", _v) + f"{_target}{_sp}«0»{_op} {_rhs}\n", True))
+N_PLAIN_TEMPLATES = len(TEMPLATES) - len(OPASSIGN_TARGETS) * len(OPASSIGN_FAILS) * 2
+
+RAISE = ["qxs := [n]\n\tqxs[0] «0»+= \"a\"", "qo := {\"k\": n}\n\tqo.k «0»/= 0", "qo := {\"k\": n + 1}\n\tqo[\"k\"] «0»*= 9223372036854775807",
+         "t := n «0»+ \"a\"", "t := [«0»nope_qq]", "t := «0»n(1)", "t := 1 «0»/ (n - n)", "n «0»-= \"é\""]
 
 
 def chain(rng):
@@ -242,8 +268,11 @@ def build_cases(ctx, rng, n):
             kind, runs = "chain", True
             tag = f"depth{depth}"
         else:
-            kind, tail, runs = rng.choice(TEMPLATES)
-            tag = tail[:24]
+            if rng.random() < 0.35:
+                kind, tail, runs = rng.choice(TEMPLATES[N_PLAIN_TEMPLATES:])
+            else:
+                kind, tail, runs = rng.choice(TEMPLATES[:N_PLAIN_TEMPLATES])
+            tag = tail[:24] if not kind.startswith("opassign") else tail.split("\n")[1].split("«")[0].strip() + tail.split("»")[1][:2]
         lead = rng.choice(["", "", "\t", "  ", " \t "])
         text, marks = strip_markers(pre + lead + tail + rng.choice(FOLLOW_ANY if kind in ("lex", "parse") else FOLLOW))
         bases.append({"kind": kind, "tag": tag, "src": text, "marks": marks, "runs": runs})
